@@ -11,7 +11,8 @@ def fill(claim, na):
           "Decides the static clause for all inputs/paths: every name, every attribute of an imported module and every "
           "intra-package call signature (incl. dispatch tables and function-pointer slots) resolves against the package "
           "source and the installed dependencies on every path; no public function writes an array/list argument; no "
-          "nondeterminism source is reachable. Layout/dtype independence is not decided (API ban only).",
+          "nondeterminism source is reachable and no call (module level included) resolves to a process-wide state setter "
+          "(numpy.seterr, warnings filters, ...: D-procstate). Layout/dtype independence is not decided (API ban only).",
           "Trusted: Python scoping rules as modelled (no global/nonlocal/star-import/getattr in the package - fails closed "
           "otherwise); installed numpy/uts/numba/math symbol tables; parameter annotations only used to report definite "
           "attribute errors; view/copy classification table of numpy operations.",
@@ -30,7 +31,8 @@ def fill(claim, na):
           "parameter is a mismatch); the endpoint fit is proved to interpolate both end points whenever x0 != xn; best-fit R2 is "
           "corrcoef[0,1]^2 with the (n-1)/(n-2) correction.",
           "Real-number reading (rounding outside the claim); numpy element-wise semantics per kverif.npmodel; @jit preserves "
-          "Python meaning; equal-length arrays. An equivalent reformulation the algebra cannot normalise is reported as "
+          "Python meaning (the one way found to break that from outside the body - an Enum selector with a str/int mix-in, "
+          "typed by numba as the mix-in - is decided by M-enum on the class statement); equal-length arrays. An equivalent reformulation the algebra cannot normalise is reported as "
           "INCONCLUSIVE (exit 2), never as a pass.",
           "DESIGN.md 3/C16")
     claim("C17", "translation_validation", "normal-form equality against geometric definitions + symbol-substitution symmetry check + dependency-API link rule",
